@@ -132,9 +132,22 @@ ASSUMPTIONS = ["connection objects are harness fakes driven by the model (the SM
                "dial attempts are observed at refusing TCP listeners, the random back-off is scaled to zero"]
 
 
+def merge(r, extra, tag):
+    r["violations"] += extra["violations"]
+    r["known_hits"].update(extra["known_hits"])
+    r["notes"] += extra["notes"]
+    r["coverage"][tag] = extra["coverage"]
+    for k in ("states", "transitions", "traces_validated_against_impl"):
+        r["coverage"][k] += extra["coverage"][k]
+
+
 def run_check(prop, tier):
     t0 = time.time()
     vlib.clear_replays(prop)
     r = collect(prop, tier)
+    if prop in ("C10", "C18"):
+        # integrated view: the same property judged on scenarios between two real hubs
+        import check_hub2
+        merge(r, check_hub2.collect(prop, tier), "two_real_hubs")
     vlib.write_evidence(prop, tier, "model_checking", r["coverage"], time.time() - t0, len(r["violations"]), assumptions=ASSUMPTIONS)
     vlib.finish(prop, r["violations"], r["known_hits"], r["notes"])
